@@ -50,6 +50,11 @@ struct UnitToml {
     /// R21: `X.map_or_else(D, |p| B)` becomes `match X { None => D(), Some(p) => B }` (the definition of the std combinator)
     #[serde(default)]
     expand_map_or_else: bool,
+    /// R21 (extended): `X.and_then(|p| B)` -> `match X { Some(p) => B, None => None }`, `X.map(|p| B)` -> `match X { Some(p) =>
+    /// Some(B), None => None }` for literal one-parameter closures without `return`/`?`/`.await` in B.  Only type-correct when X is an
+    /// `Option` (for a `Result` or an iterator the rewritten text does not compile => undecided)
+    #[serde(default)]
+    expand_option_combinators: bool,
     /// R22: a chain of closure-free std adapter calls, e.g. `into_values().collect()`, is renamed to ONE stand-in method
     /// (whose specification states the std semantics of the chain; trusted)
     #[serde(default)]
@@ -307,6 +312,7 @@ struct Rewriter<'a> {
     keep_derives: BTreeSet<String>,
     deref_store: bool,
     expand_map_or_else: bool,
+    expand_option_combinators: bool,
     chainmap: Vec<(syn::Expr, syn::Expr)>,
 }
 
@@ -811,6 +817,33 @@ impl<'a> VisitMut for Rewriter<'a> {
                 }
             }
         }
+        if self.expand_option_combinators {
+            if let syn::Expr::MethodCall(m) = e {
+                if (m.method == "and_then" || m.method == "map") && m.args.len() == 1 && m.turbofish.is_none() {
+                    if let syn::Expr::Closure(c) = &m.args[0] {
+                        struct Esc(bool);
+                        impl<'ast> syn::visit::Visit<'ast> for Esc {
+                            fn visit_expr_return(&mut self, _r: &'ast syn::ExprReturn) { self.0 = true; }
+                            fn visit_expr_try(&mut self, _r: &'ast syn::ExprTry) { self.0 = true; }
+                            fn visit_expr_await(&mut self, _r: &'ast syn::ExprAwait) { self.0 = true; }
+                            fn visit_expr_closure(&mut self, _c: &'ast syn::ExprClosure) {}
+                        }
+                        let mut esc = Esc(false);
+                        syn::visit::Visit::visit_expr(&mut esc, &c.body);
+                        if c.inputs.len() == 1 && !esc.0 && c.capture.is_none() {
+                            let pat0 = match &c.inputs[0] { syn::Pat::Type(pt) => (*pt.pat).clone(), p => p.clone() };
+                            let (recv, pat, body) = ((*m.receiver).clone(), pat0, (*c.body).clone());
+                            *e = if m.method == "and_then" {
+                                syn::parse_quote!(match (#recv) { Some(#pat) => #body, None => None })
+                            } else {
+                                syn::parse_quote!(match (#recv) { Some(#pat) => Some(#body), None => None })
+                            };
+                            self.rules.insert("R21".into());
+                        }
+                    }
+                }
+            }
+        }
         // R22: chainmap: pattern expressions with metavariables `__`, `__1`, .. (any expression) over closure-free method chains
         if !self.chainmap.is_empty() {
             for (pat, templ) in self.chainmap.clone() {
@@ -1032,6 +1065,15 @@ impl<'a> VisitMut for Annotator<'a> {
             // calls made directly by this statement (not inside nested blocks / closures, which are handled at their own level)
             let mut dc = DirectCalls { names: vec![] };
             syn::visit::Visit::visit_stmt(&mut dc, &st);
+            for (i, p) in pts.iter().enumerate() {
+                if let ProofAt::BeforeCall(n) = &p.at {
+                    if dc.names.iter().any(|x| x == n) {
+                        let mid = syn::Ident::new(&format!("vx_proof_pt_{}_{}", self.fn_idx, i), Span::call_site());
+                        out.push(syn::parse_quote!(#mid!();));
+                        self.used_points.insert(i);
+                    }
+                }
+            }
             self.visit_stmt_mut(&mut st);
             out.push(st);
             for (i, p) in pts.iter().enumerate() {
@@ -1310,18 +1352,24 @@ fn main() {
     .unwrap_or_else(|e| die(format!("unit.toml: {}", e)));
     if let Some(f) = features_override { unit_toml.features = f; }
     let prelude_raw = std::fs::read_to_string(unit.join("prelude.rs")).unwrap_or_else(|e| die(format!("prelude.rs: {}", e)));
-    // `// @include <relative path>` lines are replaced by the file's text (shared ghost vocabulary)
-    let mut prelude = String::new();
-    for l in prelude_raw.lines() {
-        if let Some(rel) = l.trim().strip_prefix("// @include ") {
-            let inc = std::fs::read_to_string(unit.join(rel.trim())).unwrap_or_else(|e| die(format!("@include {}: {}", rel, e)));
-            prelude.push_str(&inc);
-            if !inc.ends_with('\n') { prelude.push('\n'); }
-        } else {
-            prelude.push_str(l);
-            prelude.push('\n');
+    // `// @include <relative path>` lines are replaced by the file's text (shared ghost vocabulary); included files may include
+    // further files (paths relative to the unit directory)
+    fn expand_includes(unit: &Path, text: &str, depth: usize) -> String {
+        if depth > 8 { die("@include nesting too deep"); }
+        let mut out = String::new();
+        for l in text.lines() {
+            if let Some(rel) = l.trim().strip_prefix("// @include ") {
+                let inc = std::fs::read_to_string(unit.join(rel.trim())).unwrap_or_else(|e| die(format!("@include {}: {}", rel, e)));
+                out.push_str(&expand_includes(unit, &inc, depth + 1));
+                if !out.ends_with('\n') { out.push('\n'); }
+            } else {
+                out.push_str(l);
+                out.push('\n');
+            }
         }
+        out
     }
+    let prelude = expand_includes(&unit, &prelude_raw, 0);
     let contracts_src = std::fs::read_to_string(unit.join("contracts.vx")).unwrap_or_default();
     let mut contracts = parse_contracts(&contracts_src).unwrap_or_else(|e| die(format!("contracts.vx: {}", e)));
     if drop_beyond {
@@ -1401,6 +1449,7 @@ fn main() {
             keep_derives: spec.keep_derives.iter().cloned().collect(),
             deref_store: unit_toml.deref_store,
             expand_map_or_else: unit_toml.expand_map_or_else,
+            expand_option_combinators: unit_toml.expand_option_combinators,
             chainmap: unit_toml.chainmap.iter().map(|(k, v)| (parse_chain(k), parse_chain(v))).collect(),
         };
         let extra_attrs: Vec<syn::Attribute> = spec
@@ -1905,7 +1954,8 @@ fn main() {
                 let gi = idx_of_fnidx[&n];
                 let key = gen.fns[gi].key.clone();
                 let txt = contracts.fns[&key].proof_points[i].text.clone();
-                push_line(&mut final_out, &mut line_no, &format!("{}proof! {{", indent));
+                let opener = if contracts.fns[&key].proof_points[i].decl { "proof_decl! {" } else { "proof! {" };
+                push_line(&mut final_out, &mut line_no, &format!("{}{}", indent, opener));
                 for l in txt.lines() { push_line(&mut final_out, &mut line_no, &format!("{}    {}", indent, l)); }
                 push_line(&mut final_out, &mut line_no, &format!("{}}}", indent));
                 continue;
